@@ -55,6 +55,18 @@ Theorem no_gap_fatal_on_consistent_storage :
 Proof. exact no_gap_when_consistent. Qed.
 Print Assumptions no_gap_fatal_on_consistent_storage.
 
+(* [FULL] part A, the safety half of F10 for the repaired start-up: on the very states F10 produces - a snapshot ahead of a stale
+   well-formed log - the repaired newCore drops the log, and a node whose log is empty grants its vote only to a candidate
+   whose last term and index are at least those of its snapshot *)
+Theorem repaired_restart_votes_respect_snapshot :
+  (forall s m li s1, log_wf (p_log (n_p s)) -> n_budget s = 0 -> p_snap (n_p s) = Some m ->
+      log_last (p_log (n_p s)) = Some li -> li < sn_index m -> reconcile s = Ret s1 ->
+      p_log (n_p s1) = [] /\ p_snap (n_p s1) = Some m) /\
+  (forall s m from li lt, p_log (n_p s) = [] -> p_snap (n_p s) = Some m -> sn_index m <> 0 ->
+      can_grant_vote s from li lt = Ret true -> sn_term m < lt \/ (lt = sn_term m /\ sn_index m <= li)).
+Proof. split; [exact reconcile_drops_stale_log | exact vote_on_empty_log_respects_snapshot]. Qed.
+Print Assumptions repaired_restart_votes_respect_snapshot.
+
 (* [FULL] part A, acts_after_persist: for every settled node state and every event, every message the handler emits carries the
    term that is durable when the handler returns and the node's own id, and a granted vote is emitted only with exactly
    that vote durable; messages leave only when the handler returns (TakeAllMsgs), so with crash_keeps_term_and_vote a crashed
